@@ -227,6 +227,7 @@ def gen_env(seed):
 
 
 _RECURSION_LIMIT_AT_START = sys.getrecursionlimit()
+_CALENDAR_MDAYS = (0, 31, 28, 31, 30, 31, 30, 31, 31, 30, 31, 30, 31)
 
 
 def reset_interpreter_state(env=None):
@@ -241,6 +242,7 @@ def reset_interpreter_state(env=None):
     decimal.DefaultContext.prec = 28
     decimal.DefaultContext.rounding = decimal.ROUND_HALF_EVEN
     calendar.setfirstweekday(0)
+    calendar.mdays[:] = _CALENDAR_MDAYS          # in place: a data table of the standard library is interpreter-wide state too (c15p)
     sys.setrecursionlimit(_RECURSION_LIMIT_AT_START)
     logging.getLogger().setLevel(logging.WARNING)
     apply_env(env)
